@@ -1044,4 +1044,43 @@ theorem unlock_progress {max : Nat} {s : State} (hi : Inv max s) {r : Room} (hr 
     simp only [unlockPre] at this
     exact (List.Nodup.not_mem_erase hi.lockedNodup) this
 
+/-! ### head of line -/
+
+theorem roomLoop_live_some {locked : List Room} {rooms : List Room}
+    (hfree : ∃ r ∈ rooms, r ∉ locked) :
+    ∃ rooms' r', roomLoop locked true rooms.length rooms = (rooms', some r') := by
+  generalize hres : roomLoop locked true rooms.length rooms = res
+  obtain ⟨rooms', g⟩ := res
+  cases g with
+  | some r' => exact ⟨rooms', r', rfl⟩
+  | none =>
+    exfalso
+    obtain ⟨r, hr, hnl⟩ := hfree
+    have hk := roomLoop_none_live_keeps hres r hr
+    have hl : roomLoop locked true rooms.length (rooms ++ []) = (rooms', none) := by
+      rw [List.append_nil]; exact hres
+    exact hnl (roomLoop_none_locked hl (Nat.le_refl _) (by intro x hx; cases hx) r hk)
+
+/-- the peer at the back of the queue, with a live receiver and a free pending room, is served first -/
+theorem acquire_head_of_line {s : State} {p : Peer} {q : List Peer} {req : Req}
+    (hq : s.queue = p :: q) (hl : lookup p s.reqs = some req) (hlive : req.ch ∉ s.dead)
+    (hfree : ∃ r ∈ req.rooms, r ∉ s.locked) :
+    ∃ s' r, acquire s = (s', some (req.ch, r)) := by
+  unfold acquire
+  rw [hq]
+  simp only [List.length_cons]
+  unfold peerLoop
+  simp only [hq, hl]
+  obtain ⟨rooms', r', hrl⟩ := roomLoop_live_some hfree
+  have hlv : (!s.dead.contains req.ch) = true := by simpa using hlive
+  unfold peerBody
+  simp only [hlv, hrl]
+  exact ⟨_, _, rfl⟩
+
+theorem run_append (s : State) (a b : List Op) :
+    run s (a ++ b) = ((run (run s a).1 b).1, (run s a).2 ++ (run (run s a).1 b).2) := by
+  induction a generalizing s with
+  | nil => simp [run]
+  | cons op a ih => simp only [List.cons_append, run, ih, List.cons_append]
+
 end Discret.Lock
